@@ -2,7 +2,7 @@
 import itertools
 import random
 
-SCHEMES = ["", "http", "https", "ws", "wss", "ftp", "file", "svn", "x", "mailto", "HTTP", "git+ssh"]
+SCHEMES = ["", "http", "https", "ws", "wss", "ftp", "file", "svn", "x", "mailto", "HTTP", "git+ssh", "rtspu", "sftp", "tel", "nfs"]
 USERS = [None, "", "u", "u%40x", "ü", "U s", "a:b"[:1], "%41", "p%FFq", "x%E2%82", "%c3%a9%2f"]
 PASSWORDS = [None, "", "p", "p%3Aq", "p:q", "p@q"[:1], "é", "%FF", "%F0%9F%98", "%3a%40"]
 HOSTS = [None, "", "example.com", "EXAMPLE.Com", "bücher.example", "Ab_c.é.com", "1.2.3.4", "[::1]",
